@@ -734,6 +734,12 @@ class Evaluator:
             lv = self.new_loc(self.blank(t), "g")
             self.init_into(lv, v["init"], fr)
             return lv
+        if v.get("init") is not None and v.get("under_root") and ("basic_string" in t):
+            # a namespace-scope string / string_view: its value is its initialiser
+            fr = {"f": {"name": name, "ret": v["t"]}, "params": [], "locals": {}, "this": None}
+            lv = self.new_loc(self.blank(t), "g")
+            self.init_into(lv, v["init"], fr)
+            return lv
         if name.startswith("std::nullopt"):
             return ("nullopt",)
         if name in ("std::cout", "std::cerr"):
